@@ -200,7 +200,11 @@ func Run(ctx *common.Ctx) {
 		if oc.Crash != "" {
 			d["crash"] = oc.Crash
 		}
-		terms = append(terms, fmt.Sprintf("(%s,\n    %s,\n    %s)", p.Gallina(), obs.Gallina(), gSchedule(sched)))
+		gs := "Some " + gSchedule(sched)
+		if verdict == "budget" {
+			gs = "None"
+		}
+		terms = append(terms, fmt.Sprintf("(%s,\n    %s,\n    %s)", p.Gallina(), obs.Gallina(), gs))
 		descs = append(descs, d)
 		if len(terms)%37 == 1 {
 			ctx.Sample(map[string]any{"shape": p.Shape, "routines": len(p.Code), "observed": obs.summary()})
@@ -209,6 +213,6 @@ func Run(ctx *common.Ctx) {
 	ctx.Meta.DistinctNontrivial = len(distinct)
 	ctx.Meta.Rule = "generated concurrent programs over the model's operations, each run on the implementation in a worker process; distinct = distinct programs"
 	header := "From C17 Require Import Model Spec Corr.\nOpen Scope nat_scope.\n"
-	footer := "Definition res := Eval vm_compute in check_all cases.\nPrint res.\nDefinition steps := Eval vm_compute in sched_steps cases.\nPrint steps.\n"
+	footer := "Definition res := Eval vm_compute in check_all cases.\nPrint res.\nDefinition steps := Eval vm_compute in sched_steps cases.\nPrint steps.\nDefinition undecided_cases := Eval vm_compute in undecided cases.\nPrint undecided_cases.\n"
 	ctx.WriteShards("cases", header, "case", footer, terms, descs, 16)
 }
